@@ -77,6 +77,21 @@ def _stats(err):
     return {}
 
 
+def _vacuous(r):
+    """Actions with no distinct and no generated states in the LAST coverage dump (TLC also prints
+    interim dumps, in which late actions are still 0:0)."""
+    import re
+    txt = open(r.stdout_path).read()
+    i = txt.rfind("The coverage statistics at")
+    if i < 0:
+        return ["no coverage statistics in " + r.stdout_path]
+    zero = []
+    for m in re.finditer(r"^<(\w+) line (\d+), col \d+ to line \d+, col \d+ of module (\w+)( \([\d ]+\))?>: (\d+):(\d+)", txt[i:], re.M):
+        if m.group(5) == "0" and m.group(6) == "0":
+            zero.append("%s@%s:%s%s" % (m.group(1), m.group(3), m.group(2), m.group(4) or ""))
+    return zero
+
+
 class Ctx:
     def __init__(self, pid, tier):
         self.pid, self.tier = pid, tier
@@ -162,17 +177,17 @@ def job_sweep(cx, binary, maxlen):
     cx.add(evals=st.get("strings", 0))
 
 
-def job_synclog(cx, procs, maxops, maxapp, liveness):
-    wd = cx.sub("synclog")
+def job_synclog(cx, name, procs, maxops, maxapp, liveness, coverage=False):
+    wd = cx.sub(name)
     with open(wd + "/sl.cfg", "w") as fh:
         fh.write(SL_CFG % (procs, maxops, maxapp, "PROPERTIES Completes" if liveness else ""))
-    r = vf.tlc("MCSyncLog", "sl.cfg", wd, workers=cx.workers, timeout=3000, coverage=(cx.tier == "thorough"))
+    r = vf.tlc("MCSyncLog", "sl.cfg", wd, workers=cx.workers, timeout=3000, coverage=coverage)
     if r.violated:
         raise vf.MachineryError("SyncLog.tla violates %s in the model (not reproduced on the code): see %s"
                                 % (r.violated, r.stdout_path))
-    if r.coverage_zero:
-        raise vf.MachineryError("MCSyncLog: vacuous actions " + str(r.coverage_zero))
-    cx.mc(r, {"run": "MCSyncLog", "procs": procs, "maxops": maxops, "maxappends": maxapp, "liveness": liveness})
+    if coverage and _vacuous(r):
+        raise vf.MachineryError("MCSyncLog: vacuous actions " + str(_vacuous(r)))
+    cx.mc(r, {"run": "MCSyncLog/" + name, "procs": procs, "maxops": maxops, "maxappends": maxapp, "liveness": liveness})
 
 
 def job_intern_mc(cx, name, procs, maxops, pool, ops, capset, liveness, coverage=False):
@@ -184,8 +199,8 @@ def job_intern_mc(cx, name, procs, maxops, pool, ops, capset, liveness, coverage
     if r.violated:
         raise vf.MachineryError("Intern.tla violates %s in the model (not reproduced on the code): see %s"
                                 % (r.violated, r.stdout_path))
-    if r.coverage_zero:
-        raise vf.MachineryError("MCIntern: vacuous actions " + str(r.coverage_zero))
+    if coverage and _vacuous(r):
+        raise vf.MachineryError("MCIntern: vacuous actions " + str(_vacuous(r)))
     cx.mc(r, {"run": "MCIntern/" + name, "procs": procs, "maxops": maxops, "pool": pool, "ops": ops,
               "capset": capset, "liveness": liveness})
 
@@ -284,7 +299,7 @@ def validate_trace(cx, wd, lines, mode, inv):
         lo -= 1
     ev = json.loads(lines[k - 1])
     return {"mode": mode, "event": ev, "index_in_run": k - lo, "invariant": r.violated,
-            "run_prefix": [json.loads(x) for x in lines[lo:k]][-400:], "tlc_out": r.stdout_path}
+            "run_prefix": [json.loads(x) for x in lines[lo:k]][-6000:], "tlc_out": r.stdout_path}
 
 
 def job_trace(cx, binary, mode, batches, ops, ming, maxg, nchunks, seed):
@@ -385,6 +400,11 @@ def do_replay_file(cx, binary, path):
             rej = validate_trace(cx, wd + "/tr", lines, c["mode"], "ISafe" if c["mode"] == "record" else "MonSafe")
             if rej:
                 cx.verdict.disagree(rep["class"], rej, "recorded run still rejected by InternTrace.tla")
+        elif c.get("mode") in ("record", "api"):
+            # race / crash reports have no input to replay: repeat the concurrent runs of that mode
+            job_trace(cx, binary, c["mode"], 40, 10, 2, 16, 2, vf.seed())
+        elif c.get("mode") == "replay":
+            job_replay(cx, binary, "rp_2x2", "1, 2", 2, "Pool2", ALL_OPS, 2)
     return cx.verdict.finish()
 
 
@@ -407,27 +427,29 @@ def run(pid, tier, replay=None):
         if thorough:
             submit("char6", lambda: holder.__setitem__("casefile", job_char6(cx, race_bin, 6, alpha6 + ", 255")))
             submit("sweep", job_sweep, cx, plain_bin, 5)
-            submit("synclog", job_synclog, cx, "1, 2, 3", 2, 4, False)
-            submit("synclog-live", lambda: job_synclog_live(cx))
-            submit("mc22", job_intern_mc, cx, "mc_2x2", "1, 2", 2, "Pool2e", ALL_OPS, "1, 3", True, True)
-            submit("mc31", job_intern_mc, cx, "mc_3x1", "1, 2, 3", 1, "Pool3", '"intern"', "1, 3", True)
+            submit("synclog", job_synclog, cx, "synclog", "1, 2, 3", 2, 3, False)
+            submit("synclog-live", job_synclog, cx, "synclog_live", "1, 2", 3, 4, True, True)
+            submit("mc22", job_intern_mc, cx, "mc_2x2", "1, 2", 2, "Pool2e", ALL_OPS, "1, 3", False)
+            submit("mc31", job_intern_mc, cx, "mc_3x1", "1, 2, 3", 1, "Pool3", '"intern"', "1, 3", False)
             submit("mc32", job_intern_mc, cx, "mc_3x2", "1, 2, 3", 2, "Pool1", '"intern", "query"', "1, 3", False)
+            submit("mclive2", job_intern_mc, cx, "mc_live2", "1, 2", 2, "Pool1", ALL_OPS, "1, 3", True, True)
+            submit("mclive3", job_intern_mc, cx, "mc_live3", "1, 2, 3", 1, "Pool1", '"intern"', "1, 3", True)
             submit("replay22", lambda: holder.__setitem__("schedfile", job_replay(
                 cx, race_bin, "rp_2x2", "1, 2", 2, "Pool2", ALL_OPS, 2)))
             submit("replay31", job_replay, cx, race_bin, "rp_3x1", "1, 2, 3", 1, "Pool2", '"intern"', 3)
             submit("replay23", job_replay, cx, race_bin, "rp_2x3", "1, 2", 3, "Pool1", ALL_OPS, 2)
             submit("replaysim", job_replay, cx, race_bin, "rp_sim", "1, 2, 3", 3, "Pool3", ALL_OPS, 0,
-                   simulate=1500, depth=110)
+                   simulate=600, depth=110)
             submit("record", lambda: holder.__setitem__("chunks", job_trace(
                 cx, race_bin, "record", 260, 10, 2, 16, 4, seed)))
             submit("api", job_trace, cx, race_bin, "api", 1500, 12, 2, 16, 4, seed)
         else:
             submit("char6", lambda: holder.__setitem__("casefile", job_char6(cx, race_bin, 5, alpha6)))
             submit("sweep", job_sweep, cx, race_bin, 3)
-            submit("synclog", job_synclog, cx, "1, 2", 3, 4, False)
+            submit("synclog", job_synclog, cx, "synclog", "1, 2", 3, 4, False)
             submit("mc", job_intern_mc, cx, "mc_2x2", "1, 2", 2, "Pool1", ALL_OPS, "1, 3", False)
             submit("replay", lambda: holder.__setitem__("schedfile", job_replay(
-                cx, race_bin, "rp_2x2", "1, 2", 2, "Pool2", '"intern", "query"', 2, limit=1500)))
+                cx, race_bin, "rp_2x2", "1, 2", 2, "Pool1", ALL_OPS, 2)))
             submit("replaysim", job_replay, cx, race_bin, "rp_sim", "1, 2, 3", 2, "Pool3", ALL_OPS, 0,
                    simulate=150, depth=80)
             submit("record", lambda: holder.__setitem__("chunks", job_trace(
@@ -466,14 +488,3 @@ def run(pid, tier, replay=None):
         "the native sweep compares with a Go transcription of Char6!Encode in addition to the round trip"],
         time.time() - t0, violations=len(cx.verdict.violations), known=cx.verdict.known_hits)
     return rc
-
-
-def job_synclog_live(cx):
-    """Liveness of the log (every Append / Load returns) on a smaller configuration."""
-    wd = cx.sub("synclog_live")
-    with open(wd + "/sl.cfg", "w") as fh:
-        fh.write(SL_CFG % ("1, 2, 3", 2, 3, "PROPERTIES Completes"))
-    r = vf.tlc("MCSyncLog", "sl.cfg", wd, workers=cx.workers, timeout=3000)
-    if r.violated:
-        raise vf.MachineryError("SyncLog.tla violates %s in the model: see %s" % (r.violated, r.stdout_path))
-    cx.mc(r, {"run": "MCSyncLog/liveness", "procs": "1, 2, 3", "maxops": 2, "maxappends": 3, "liveness": True})
